@@ -204,6 +204,10 @@ async def do_op(sim, request):
             text = entry["text"]
             which = "cond" if kind == "P" else "ahb"
             note_reuse(text)
+            if any(char in text for char in EXOTIC_SPACES):
+                sim.probe("parse_of_exotic_white_space")
+                if state.get("flooded"):
+                    sim.probe("parse_of_exotic_white_space_after_flood")
             parse = parse_condition_expression_to_tree if kind == "P" else (
                 parse_ahb_expression_to_single_requirement_indicator_expressions
             )
@@ -313,6 +317,9 @@ async def do_op(sim, request):
 
 
 # --------------------------------------------------------------------------------------------------- generation
+EXOTIC_SPACES = ["\xa0", "\u2003", "\u3000", "\u2009", "\x0b", "\x0c", "\r\n"]
+
+
 def generate(seed, tier="quick"):
     rnd = rng(seed, "c11")
     rc, hints, fcs = key_universe(rnd, rnd.randint(2, 4), rnd.randint(1, 2), rnd.randint(1, 3))
@@ -469,7 +476,7 @@ def generate(seed, tier="quick"):
         candidates = [e for e in pool if " " in e["text"] and e["grammar"] in ("cond", "ahb")]
         if candidates:
             entry = exo.choice(candidates)
-            space = exo.choice(["\xa0", "\u2003", "\u3000", "\u2009", "\x0b", "\x0c", "\r\n"])
+            space = exo.choice(EXOTIC_SPACES)
             pool.append({"grammar": entry["grammar"], "text": entry["text"].replace(" ", space, exo.choice([1, 2, 9])),
                          "evals": ["resolve", "resolve_raw", "keys"]})
             target, code = len(pool) - 1, "P" if entry["grammar"] == "cond" else "A"
